@@ -3,7 +3,7 @@
 //! `with_reconnection_events` [-> `with_error_handler`] as composed by `init_market_stream`, and `forward_to`) plus
 //! `barter_integration::stream::merge::merge` on scripts of connection outcomes under tokio's PAUSED clock, and compares
 //! every delivered event together with the virtual time of its delivery against a reference model.
-use crate::{eng::Rng, report};
+use crate::{rng::Rng, report};
 use barter_data::streams::{
     consumer::StreamKey,
     reconnect::{
